@@ -149,6 +149,12 @@ class TickRecorder:
         trap_seen = new_traps[0] if new_traps else trap
         cur['trap'] = trap
         cur['trapseen'] = trap_seen
+        nf = 0
+        f = cpu.cur_frame
+        while f is not None:
+            nf += 1
+            f = f.prev_frame
+        cur['nf'] = nf
         cur['halt'] = bool(cpu.halted)
         if not trap:
             for d, idx, t in cur['_w']:
